@@ -281,9 +281,23 @@ def rtypes_of(c):
 
 # ------------------------------------------------------------------------------------------ expectations (independent of the model)
 
+def expected_name(c):
+    """the name the property says goes on the wire: computed here, not taken from the implementation"""
+    if c["via"] == "proxy":
+        p = c["proxy"]
+        return hx(mangled(bytes.fromhex(p["ns"]), bytes.fromhex(p["tag"]), p["path"]))
+    return c["call"]
+
+
 def expected_target(c, o):
     low = dict((e["k"], e["v"]) for e in o["lower"])
-    target = low.get(o.get("name") or c["call"])
+    name = expected_name(c)
+    target = low.get(name)
+    if target is None:
+        try:
+            target = hx(bytes.fromhex(name).decode().lower().encode())
+        except UnicodeDecodeError:
+            target = name
     for m in c["methods"]:
         if not m["missing"] and low.get(m["name"]) == target:
             return m
@@ -320,6 +334,9 @@ def property_oracle(c, o):
     m = expected_target(c, o)
     log = o.get("log") or []
     kind = c["res"]["kind"]
+    if o.get("name") and o["name"] != expected_name(c):
+        out.append(("wire-name-differs", "the call went out under the name %r, the property requires %r"
+                    % (bytes.fromhex(o["name"]).decode("utf-8", "replace"), bytes.fromhex(expected_name(c)).decode("utf-8", "replace"))))
     if o.get("sent", 0) != 1 and not rem.get("has_panic"):
         out.append(("requests-sent", "%d requests left the client for one call" % o.get("sent", 0)))
     if m is None:
@@ -334,7 +351,7 @@ def property_oracle(c, o):
         if not rem.get("failed") and not rem.get("has_panic"):
             out.append(("nonconforming-call-succeeded", "a call with the wrong number of arguments returned normally: %s" % c07.fmt_vals(rem.get("results") or [])[:120]))
         return out
-    if any(e.get("err") for e in (o.get("or_args") or [])) or any(e["v"].startswith("ERR") for e in (o.get("or_hdrs") or [])):
+    if any(e.get("err") and e.get("solo_err") for e in (o.get("or_args") or [])) or any(e["v"].startswith("ERR") for e in (o.get("or_hdrs") or [])):
         return out        # an argument that the plain io round trip cannot carry either: C01's business
     # exactly once, the right function, the right arguments
     if len(log) != 1:
@@ -346,11 +363,13 @@ def property_oracle(c, o):
     e = log[0]
     if e["id"] != m["id"]:
         out.append(("wrong-function-entered", "function #%d entered, the name resolves to #%d" % (e["id"], m["id"])))
-    if m["missing"] and e.get("name") != (o.get("name") or c["call"]):
+    if m["missing"] and e.get("name") != expected_name(c):
         out.append(("missing-method-got-other-name", "missing-method handler got name %s, called %s" % (e.get("name"), o.get("name"))))
     if e.get("nil_ctx"):
         out.append(("nil-context-injected", "the function's context parameter was nil"))
-    want_args = [x["v"].replace("(tnil)", "(nil)") for x in o.get("or_args") or []]
+    want_args = [x.get("solo", x.get("v", "")).replace("(tnil)", "(nil)") for x in o.get("or_args") or []]
+    if e["args"] != want_args and any(x.get("solo_err") for x in o.get("or_args") or []):
+        want_args = e["args"]       # a value that does not round-trip on its own either: C01's business
     if e["args"] != want_args:
         shared = len(set(re.findall(r"\(ptr (\d+)\)", " ".join(o.get("args_sx") or [])))) < len(re.findall(r"\(ptr (\d+)\)", " ".join(o.get("args_sx") or [])))
         key = "pointer-shared-between-arguments-of-different-static-types-decoded-wrong" if shared else "argument-values-differ"
@@ -377,8 +396,8 @@ def property_oracle(c, o):
     errval = any(sx.startswith("(err ") for sx in (o.get("res_sx") or [])) and len(o.get("res_sx") or []) == 1
     if rem.get("has_panic"):
         nil_res = "(nil)" in [x.get("v") for x in (o.get("or_res") or [])]
-        key = "nil-interface-result-panics-in-proxy" if nil_res and "zero Value" in rem["panic"] else "caller-panics:" + c07.norm(rem["panic"])
-        out.append((key, "the function returned normally but the proxy function panicked in the caller: " + rem["panic"][:120]))
+        key = "nil-interface-result-panics-in-proxy" if nil_res and "zero Value" in rem.get("panic", "") else "caller-panics:" + c07.norm(rem.get("panic", ""))
+        out.append((key, "the function returned normally but the proxy function panicked in the caller: " + rem.get("panic", "")[:120]))
         return out
     if rem.get("failed"):
         if errval:
@@ -467,7 +486,7 @@ def compare(c, o, m):
         p = m.get("p")
         if p == "ret":
             if rem.get("has_panic"):
-                dis.append("model: proxy returns; the proxy function panicked: %s" % rem["panic"][:160])
+                dis.append("model: proxy returns; the proxy function panicked: %s" % rem.get("panic", "")[:160])
             else:
                 if m.get("vals") != got_vals:
                     dis.append("proxy results: model %s go %s" % (m.get("vals", "")[:300], got_vals[:300]))
@@ -488,10 +507,10 @@ def compare(c, o, m):
             if not rem.get("has_panic"):
                 dis.append("model: the proxy function panics with %r; it returned" % want[:80])
             elif c["sopts"]["debug"] and ("\r\n" in want or "reflect: Call" in want):
-                if not rem["panic"].startswith(want.split("\r\n")[0]):
-                    dis.append("proxy panic text (debug): model %r go %r" % (want[:80], rem["panic"][:80]))
-            elif rem["panic"] != want and not (want == "" and rem["panic"] == "panic"):
-                dis.append("proxy panic text: model %r go %r" % (want[:80], rem["panic"][:80]))
+                if not rem.get("panic", "").startswith(want.split("\r\n")[0]):
+                    dis.append("proxy panic text (debug): model %r go %r" % (want[:80], rem.get("panic", "")[:80]))
+            elif rem.get("panic", "") != want and not (want == "" and rem.get("panic", "") == "panic"):
+                dis.append("proxy panic text: model %r go %r" % (want[:80], rem.get("panic", "")[:80]))
         else:
             dis.append("model proxy result: %r" % p)
     return dis
